@@ -164,6 +164,55 @@ CHECKS = {
         note="Severity orders typed from the specifications; v3.0 environmental exempt for C/I/A, MC/MI/MA, CR/IR/AR as the "
              "property states (the check counts and reports the exempt non-monotone pairs).",
         ref="3 C14"),
+    "C17": dict(
+        technique="runtime monitor of the CLI process boundary (exit status, stdout, stderr) against API values and the dialogue "
+                  "model",
+        text="cvss_calculator is run as real subprocesses (400/6,400 command lines) and in-process via main() with patched "
+             "argv/stdio (21k/320k): all 8 version-flag combinations x option subsets x vectors valid for the flagged version, "
+             "valid for another version, field-level mutants, junk; interactive scripts incl. end of input at every prompt "
+             "index. Judged: exit 0 and no traceback; output explained by one of the flagged versions (default 3.1) -- score "
+             "lines with ratings, cleaned and RH vectors equal to the API values, -j document equal to sorted minimal "
+             "as_json() with ascending keys, error message equal to the library's; interactive result equal to the C16 "
+             "model's; a dispatch to a non-flagged version is diagnosed as such.",
+        note="Several version flags: any flagged version accepted. -v '' and the literal value '--' are argparse artefacts "
+             "(interactive mode / dropped) and judged / avoided accordingly. Runs under /venv's interpreter (C20 covers others).",
+        ref="3 C17"),
+    "C18": dict(
+        technique="sequence monitor over accessor calls on one instance (all ordered pairs + random sequences with dictionary "
+                  "mutation) against fresh-object baselines",
+        text="For every sampled vector: every accessor variant on a fresh object (baseline); EVERY ordered pair (A,B) of the "
+             "13-15 variants on a fresh object (an interference A->B shows on that pair); random sequences of 5-40 calls with "
+             "clear/overwrite/insert/delete mutations of returned as_json() dictionaries and constructions of other objects "
+             "interleaved; every result must equal (value and type; key order for sort=True) the fresh-object result. "
+             "Internal attribute changes are counted, not judged.",
+        note="Sequences are unbounded: pairs are complete per sampled vector, longer interference chains are sampled.",
+        ref="3 C18"),
+    "C19": dict(
+        technique="differential trace monitor (fresh-process baseline vs. after histories / in threads with sys.monitoring yield "
+                  "injection / other hash seeds / ambient decimal contexts) + global-state fingerprint + fd-level output guard",
+        text="A ~450-input probe set (all versions, valid/invalid, 3.0/3.1 twins with differing scores in both orders, RH "
+             "strings, texts, dialogues) is observed in a fresh process and again (1) after seeded histories of ~150-400 API "
+             "calls of all kinds incl. interactive and CLI runs, with early objects kept and re-observed, (2) while 8 threads "
+             "hammer a shared pool with 10us switch interval and seeded yields injected at library lines through "
+             "sys.monitoring (evidence: cross-thread switches inside library code, distinct switch points), (3) in fresh "
+             "processes under other PYTHONHASHSEEDs, (4) under 8 rounding modes x 4 precisions. Before/after each history "
+             "the data globals of all cvss modules and classes, the exception MROs, decimal context, sys.path, "
+             "warnings.filters are fingerprinted; stdout/stderr are guarded at Python and fd level.",
+        note="Thread schedules, histories and contexts are sampled. Decimal signal flags excluded from the fingerprint "
+             "(every decimal operation sets them).",
+        ref="3 C19"),
+    "C20": dict(
+        technique="differential runtime monitor: one probe transcript per interpreter (2.7, 3.6-3.13) vs. the reference "
+                  "interpreter; real CLI subprocesses per interpreter",
+        text="A Python 2/3 common-subset probe runs the public API over a seeded corpus (vectors of every version, mutants, "
+             "RH strings, texts, answer scripts, in-process command lines incl. non-ASCII) under each of the nine installed "
+             "interpreters; transcripts (error class names, scores, ratings, vectors, JSON items with key order for "
+             "sort=True, extraction results, builder results and output, CLI output/exit) must equal /venv's. 18 command "
+             "lines are also run as real subprocesses per interpreter. Import failure = violation; missing interpreter = "
+             "inconclusive. Found and fixed F4 (2.7 dispatch) and a 2.7 JSON whitespace divergence; F5 (2.7 non-ASCII argv) "
+             "is an open known finding.",
+        note="Only the interpreters installed in this image, one platform. sort=False key order not compared.",
+        ref="3 C20"),
 }
 
 NOT_BUILT_REASON = "check not built yet (framework under construction; see DESIGN.md section 3 for the planned monitor)"
